@@ -19,5 +19,6 @@ for m in A B; do
     d=/verif/seeded/$P$new; mkdir -p $d
     cp "$patch" $d/patch.diff; cp "$demo" $d/demo.py
     [ -f "$SRC/notes.md" ] && cp "$SRC/notes.md" $d/notes.md
+    [ -f "$SRC/common.py" ] && cp "$SRC/common.py" $d/common.py
   fi
 done
